@@ -162,6 +162,26 @@ func (ex *Exec) sprintf(format string, args []Value) Value {
 				dc := ex.digitCount(ex.ts.SExt(x, 64))
 				out.segs = append(out.segs, Seg{opaque: true, ln: dc, wd: dc})
 			}
+		case 'x':
+			var bs []*Term
+			switch x := a.(type) {
+			case Slice:
+				bs = ex.bytesOf(x)
+			case Str:
+				bs = x.b
+			default:
+				panic(unsupported(fmt.Sprintf("Sprintf %%x of %T", a)))
+			}
+			var hx []*Term
+			for _, b := range bs {
+				for _, nib := range []*Term{ex.ts.Extract(b, 7, 4), ex.ts.Extract(b, 3, 0)} {
+					n8 := ex.ts.ZExt(nib, 8)
+					hx = append(hx, ex.ts.Ite(ex.ts.Bin(OpULt, n8, ex.ts.Const(8, 10)), ex.ts.Bin(OpAdd, n8, ex.ts.Const(8, '0')), ex.ts.Bin(OpAdd, n8, ex.ts.Const(8, 'a'-10))))
+				}
+			}
+			if len(hx) > 0 {
+				out = ex.ropeCat(out, ex.toRope(Str{hx}))
+			}
 		default:
 			panic(unsupported("Sprintf verb " + string(verb)))
 		}
